@@ -78,6 +78,9 @@ M = [
     ("C10", "cache-output-not-truncated", S + "cmd_cache_create.py", '        with open(output_file, "wb") as f:', '        import os as _os\n        with open(output_file, "r+b" if _os.path.exists(output_file) else "wb") as f:'),
     ("C02", "envelope-appended-to-existing-output", S + "input_output.py", '        with open(file_name, "wb") as fh:\n            fh.write(self.prepare_suit_data(data))', '        with open(file_name, "ab") as fh:\n            fh.write(self.prepare_suit_data(data))'),
     ("C03", "json-output-not-truncated", S + "input_output.py", '        with open(file_name, "w", encoding=cls.DEFAULT_ENCODING) as fh:\n            json.dump(cls.parse_json_submanifests(data)', '        import os as _os\n        with open(file_name, "r+" if _os.path.exists(file_name) else "w", encoding=cls.DEFAULT_ENCODING) as fh:\n            json.dump(cls.parse_json_submanifests(data)'),
+    ("C05", "revert-F14-dependency-file-digest-over-reencoded-manifest", S + "suit/security.py", '                    hfunc = SuitHash(obj[suit_digest_algorithm_id.name])\n                    obj[suit_digest_bytes.name] = hfunc.hash(manifest_bstr)\n', '                    _e = SuitEnvelopeTagged.from_cbor(sub_envelope_bytes)\n                    _e.update_severable_digests()\n                    _e.update_digest()\n                    obj[suit_digest_bytes.name] = _e.get_manifest_digest(obj[suit_digest_algorithm_id.name]).hex()\n'),
+    ("C02", "revert-F15-policy-flags-added", S + "suit/types/common.py", "            value |= self.deserialize_cbor(bit.to_cbor())\n", "            value += self.deserialize_cbor(bit.to_cbor())\n"),
+    ("C19", "revert-F16-mpi-names-unquoted", "ncs/root_with_nordic_top_envelope.yaml.jinja2", "            namespace: {{ mpi_app_vendor_name|tojson }}\n            name: {{ mpi_app_class_name|tojson }}\n", "            namespace: {{ mpi_app_vendor_name }}\n            name: {{ mpi_app_class_name }}\n"),
     ("C17", "revert-F13-shared-values-accepted", S + "suit/types/common.py", '        SuitObject.reject_shared_values(value)\n        return value\n', '        return value\n'),
     ("C18", "payload-file-memo-by-path", S + "cmd_cache_create.py", '            with open(input_file, "rb") as f:\n                data = f.read()\n\n            cache.add_cache_slot(uri, data)', '            with open(input_file, "rb") as f:\n                data = globals().setdefault("_FILES", {}).setdefault(input_file, f.read())\n\n            cache.add_cache_slot(uri, data)'),
     ("C18", "parsed-envelope-memo-by-path-and-size", S + "input_output.py", '        with open(file_name, "rb") as fh:\n            data = fh.read()\n            suit = SuitEnvelopeTagged.from_cbor(data)\n            return suit.to_obj()', '        with open(file_name, "rb") as fh:\n            data = fh.read()\n            memo = globals().setdefault("_PARSED", {})\n            key = (str(file_name), len(data))\n            if key not in memo:\n                memo[key] = SuitEnvelopeTagged.from_cbor(data).to_obj()\n            import copy\n            return copy.deepcopy(memo[key])'),
